@@ -6,7 +6,7 @@
    (premises of C16_optimal_solution_is_closest_flow). *)
 From Coq Require Import List NArith ZArith QArith Bool Arith Lia.
 Import ListNotations.
-From FP Require Import Lin Blocks BlocksProofs PathEnc MiscEnc MiscEncProofs MefBound.
+From FP Require Import Lin Blocks BlocksProofs PathEnc MiscEnc MiscEncProofs MefBound MefChecked.
 Local Open Scope Q_scope.
 
 (* rows + columns <=> 0 <= x, err <= ub (integral for int weights); conservation at every node with in- and
@@ -81,6 +81,19 @@ Definition C16_full_statement : Prop := forall (I : mef_inst) (a : var -> Q),
 Theorem C16_optimal_solution_is_closest_flow : C16_full_statement.
 Proof. exact mef_optimal_is_closest_full. Qed.
 Print Assumptions C16_optimal_solution_is_closest_flow.
+
+(* CHECKED form: the side conditions are one executable boolean (extracted; run on every instance by the engine) *)
+Theorem C16_optimal_solution_is_closest_flow_checked : forall (I : mef_inst) (a : var -> Q), mef_domain_b I = true ->
+  sat a (encode_mef I) -> (forall b, sat b (encode_mef I) -> obj_le (encode_mef I) a b) ->
+  is_flow_ub I (xof a) /\ forall y, is_flow_nb I y -> flow_cost I (xof a) <= flow_cost I y.
+Proof. exact mef_optimal_is_closest_checked. Qed.
+Print Assumptions C16_optimal_solution_is_closest_flow_checked.
+Theorem C16_domain_check_sound : forall I : mef_inst, mef_domain_b I = true ->
+  NoDup (mef_edges I) /\ (forall e, In e (mef_edges I) -> 0 <= fval I e) /\
+  (mef_int I = true -> forall e, In e (mef_edges I) -> is_int (fval I e)) /\
+  (forall e, In e (mef_edges I) -> 0 <= scale_of I e).
+Proof. exact mef_domain_b_sound. Qed.
+Print Assumptions C16_domain_check_sound.
 
 (* the corrected graph has the node list and the edge list it was built from; an edge carries a value iff it had one *)
 Theorem C16_same_graph : forall (I : mef_inst) (nodes : list node) (edges : list edge) (x : edge -> Q),
